@@ -450,14 +450,14 @@ class BinaryZlibFile(io.BufferedIOBase):
     def read(self, size=-1):
         """Read up to size uncompressed bytes from the file.
 
-        If size is negative or omitted, read until EOF is reached.
+        If size is negative, None or omitted, read until EOF is reached.
         Returns b'' if the file is already at EOF.
         """
         with self._lock:
             self._check_can_read()
             if size == 0:
                 return b""
-            elif size < 0:
+            elif size is None or size < 0:
                 return self._read_all()
             else:
                 return self._read_block(size)
